@@ -1,1 +1,200 @@
-// harness module for waker (see DESIGN.md)
+// Harnesses for src/sync/waker.rs (child module: sees Leaf, Layer, BitMap, PollWaker, WakeHandlers, Array).
+// Properties C11 (steps 1 and 1b: extraction of the per-thread atomic-operation programs) and C12 (bookkeeping).
+// waker.rs is compiled against the `vstd` facade, whose AtomicUsize logs every operation and can return scripted
+// values: an extraction harness runs ONE thread's function with every possible outcome of each of its atomic
+// operations and proves that its sequence of (word, operation, argument, ordering) equals that of a small automaton.
+// The automata are then interleaved in h_wakemodel.rs (step 2).
+//
+// @file crate=incrate features= replay_cfg=uazu_replay_waker restrict_vtable=1
+use super::*;
+use crate::uazu_stakker_verif::vstd::sync::atomic::{log_event, trace, Event, EVMAX, OP_CALLBACK, OP_OR, OP_SWAP};
+
+fn trace_reset(scripted: bool) {
+    let t = trace();
+    t.n = 0;
+    t.k = 0;
+    t.scripted = scripted;
+}
+fn addr_of(l: &Leaf) -> usize {
+    &l.bitmap as *const AtomicUsize as usize
+}
+fn new_pollwaker() -> Arc<PollWaker> {
+    Arc::new(PollWaker::new(Box::new(|| log_event(0, OP_CALLBACK, 0, 4, 0))))
+}
+// memory-order policy (DESIGN §4 C11): every setting RMW at least Release, every draining RMW at least Acquire
+fn is_release(ord: u8) -> bool {
+    ord == 1 || ord == 3 || ord == 4
+}
+fn is_acquire(ord: u8) -> bool {
+    ord == 2 || ord == 3 || ord == 4
+}
+
+// ---- step 1: the waking thread's program ----
+// BitMap::set(bit) (== Waker::wake) against the automaton
+//   fetch_or(leaf[a], 1<<b) ; if old == 0: fetch_or(summary, 1<<a) ; if old == 0: fetch_or(top, 1<<wake_index) ; if old == 0: callback
+// for EVERY outcome of every operation, every bit, base index and wake index.
+// @verif prop=C11 tier=quick timeout=900 mem=10 unwind=10
+// @enc sync::waker::BitMap::set sync::waker::Leaf::set sync::waker::Waker::wake (PollWaker callback invocation)
+// @sym bit offset 0..4095, base index (multiple of 4096), wake index 0..63, and the value returned by each atomic operation (any usize)
+// @bound one wake(): at most 3 atomic operations (loop-free)
+// @assume AtomicUsize replaced by the logging shim of harness/model/vstd.rs returning arbitrary values: all outcomes a concurrent execution can produce for each single operation
+#[kani::proof]
+#[kani::unwind(10)]
+fn w_set_equiv() {
+    let pw = new_pollwaker();
+    let k: u32 = kani::any();
+    kani::assume(k < (1 << 19));
+    let base = k * BitMap::SIZE;
+    let wi: u32 = kani::any();
+    kani::assume(wi < USIZE_BITS);
+    let bm = Arc::new(BitMap::new(base, wi, pw.clone()));
+    let off: u32 = kani::any();
+    kani::assume(off < BitMap::SIZE);
+    let waker = Waker { bit: base + off, bitmap: bm.clone() };
+    trace_reset(true);
+    let t = trace();
+    t.script[0] = kani::any();
+    t.script[1] = kani::any();
+    t.script[2] = kani::any();
+    waker.wake();
+    let a = off >> USIZE_INDEX_BITS;
+    let b = off & (USIZE_BITS - 1);
+    let (r0, r1, r2) = (t.script[0], t.script[1], t.script[2]);
+    // expected event sequence
+    let mut n = 1;
+    assert!(t.ev[0].addr == addr_of(&bm.tree.child[a]) && t.ev[0].op == OP_OR && t.ev[0].arg == 1usize << b && t.ev[0].ret == r0,
+            "C11: first operation of wake() must be fetch_or of the waker's bit on its leaf word");
+    assert!(is_release(t.ev[0].ord), "C11: leaf fetch_or must be at least Release (publishes the waker's writes)");
+    if r0 == 0 {
+        n = 2;
+        assert!(t.ev[1].addr == addr_of(&bm.tree.summary) && t.ev[1].op == OP_OR && t.ev[1].arg == 1usize << a && t.ev[1].ret == r1,
+                "C11: a wake that found its leaf word empty must set the leaf's bit in the bitmap summary");
+        assert!(is_release(t.ev[1].ord), "C11: summary fetch_or must be at least Release");
+        if r1 == 0 {
+            n = 3;
+            assert!(t.ev[2].addr == addr_of(&pw.summary) && t.ev[2].op == OP_OR && t.ev[2].arg == 1usize << wi && t.ev[2].ret == r2,
+                    "C11: a wake that found the bitmap summary empty must set the bitmap's bit in the poll-waker summary");
+            assert!(is_release(t.ev[2].ord), "C11: top-level fetch_or must be at least Release");
+            if r2 == 0 {
+                n = 4;
+                assert!(t.ev[3].op == OP_CALLBACK, "C11: a wake that found every level empty must invoke the poll-waker callback");
+            }
+        }
+    }
+    assert!(t.n == n, "C11: wake() performed an atomic operation / callback that the protocol does not have, or skipped one");
+    kani::cover!(n == 4, "callback reached");
+    kani::cover!(n == 1, "stops at the leaf");
+    kani::cover!(n == 3, "stops at the top level");
+    std::mem::forget(waker);
+}
+
+// ---- step 1: Waker::drop = lock; push(bit); set(base_index); unlock ----
+// @verif prop=C12,C11 tier=quick timeout=900 mem=10 unwind=10
+// @enc sync::waker::Waker::drop sync::waker::BitMap::set
+// @sym bit offset 1..4095, base index, wake index, outcome of each atomic operation
+// @bound one drop
+// @assume AtomicUsize shim with scripted (arbitrary) results; std Mutex executed sequentially
+#[kani::proof]
+#[kani::unwind(10)]
+fn w_drop_equiv() {
+    let pw = new_pollwaker();
+    let k: u32 = kani::any();
+    kani::assume(k < 16);
+    let base = k * BitMap::SIZE;
+    let wi: u32 = kani::any();
+    kani::assume(wi < USIZE_BITS);
+    let bm = Arc::new(BitMap::new(base, wi, pw.clone()));
+    let off: u32 = kani::any();
+    kani::assume(off >= 1 && off < BitMap::SIZE);
+    let waker = Waker { bit: base + off, bitmap: bm.clone() };
+    trace_reset(true);
+    let t = trace();
+    t.script[0] = kani::any();
+    t.script[1] = kani::any();
+    t.script[2] = kani::any();
+    drop(waker);
+    // the dropped waker's number is on the drop list, exactly once
+    let dl = pw.drop_list.lock().unwrap();
+    assert!(dl.len() == 1 && dl[0] == base + off, "C12: drop must record the waker's number exactly once");
+    drop(dl);
+    // and the reserved slot 0 of the bitmap was woken: leaf 0, bit 0
+    assert!(t.n >= 1 && t.ev[0].addr == addr_of(&bm.tree.child[0]) && t.ev[0].op == OP_OR && t.ev[0].arg == 1, "C12: drop must wake the bitmap's reserved drop slot");
+    let n = if t.script[0] != 0 { 1 } else if t.script[1] != 0 { 2 } else if t.script[2] != 0 { 3 } else { 4 };
+    assert!(t.n == n, "C12: drop's wake is not the wake() protocol");
+    kani::cover!(n == 4, "callback reached");
+}
+
+// ---- step 1b: the collecting thread's program for one bitmap ----
+// BitMap::drain against: s = swap(summary, 0); for a in bits(s) ascending { l = swap(leaf[a], 0); for b in bits(l) ascending { emit base+(a<<6)+b } }
+const OUTN: usize = 6;
+// @verif prop=C11,C12 tier=quick timeout=1500 mem=12 unwind=4 unwindset=Leaf::drain.*\.0$:4
+// @enc sync::waker::BitMap::drain sync::waker::Leaf::drain
+// @sym base index; the values returned by the swaps: summary with <= 2 bits set, each leaf with <= 2 bits set (any positions)
+// @bound <= 2 leaves x <= 2 bits (3 swaps, 4 emitted numbers)
+// @assume AtomicUsize shim with scripted results (every outcome of each swap within the bit-count bound)
+#[kani::proof]
+#[kani::unwind(4)]
+fn w_drain_equiv() {
+    let pw = new_pollwaker();
+    let k: u32 = kani::any();
+    kani::assume(k < 16);
+    let base = k * BitMap::SIZE;
+    let bm = BitMap::new(base, 0, pw.clone());
+    trace_reset(true);
+    let t = trace();
+    let (s, l0, l1): (usize, usize, usize) = (kani::any(), kani::any(), kani::any());
+    kani::assume(s.count_ones() <= 2 && l0.count_ones() <= 2 && l1.count_ones() <= 2);
+    t.script[0] = s;
+    t.script[1] = l0;
+    t.script[2] = l1;
+    let mut out = [0u32; OUTN];
+    let mut on = 0usize;
+    bm.drain(|bit| {
+        if on < OUTN {
+            out[on] = bit;
+        }
+        on += 1;
+    });
+    // automaton
+    let mut en = 0usize; // expected events
+    let mut xo = [0u32; OUTN];
+    let mut xn = 0usize;
+    assert!(t.n >= 1 && t.ev[0].addr == addr_of(&bm.tree.summary) && t.ev[0].op == OP_SWAP && t.ev[0].arg == 0, "C11: collection of a bitmap must start by swapping its summary word with 0");
+    assert!(is_acquire(t.ev[0].ord), "C11: summary swap must be at least Acquire");
+    en += 1;
+    let mut sb = s;
+    let mut li = 0;
+    while sb != 0 {
+        let a = sb.trailing_zeros();
+        sb &= sb - 1;
+        let lv = if li == 0 { l0 } else { l1 };
+        li += 1;
+        assert!(t.n > en && t.ev[en].addr == addr_of(&bm.tree.child[a]) && t.ev[en].op == OP_SWAP && t.ev[en].arg == 0,
+                "C11: every leaf flagged in the summary must be swapped with 0, in ascending order");
+        assert!(is_acquire(t.ev[en].ord), "C11: leaf swap must be at least Acquire (sees the waker's writes)");
+        en += 1;
+        let mut lb = lv;
+        while lb != 0 {
+            let b = lb.trailing_zeros();
+            lb &= lb - 1;
+            if xn < OUTN {
+                xo[xn] = base + (a << USIZE_INDEX_BITS) + b;
+            }
+            xn += 1;
+        }
+    }
+    assert!(t.n == en, "C11: collection performed an atomic operation the protocol does not have (or skipped one)");
+    assert!(on == xn, "C11: collection lost or invented a wake-up");
+    let mut i = 0;
+    while i < 4 {
+        if i < xn {
+            assert!(out[i] == xo[i], "C11: collection reported the wrong waker number");
+        }
+        i += 1;
+    }
+    kani::cover!(xn == 4, "two leaves with two bits each");
+    kani::cover!(s != 0 && l0 == 0, "flagged leaf already empty (spurious)");
+}
+
+#[cfg(uazu_replay_waker)]
+include!(env!("UAZU_STAKKER_REPLAY_FILE"));
